@@ -323,6 +323,7 @@ def run_case(case):
             viol.extend(v)
             for d in os.listdir(tmp):
                 shutil.rmtree(os.path.join(tmp, d), ignore_errors=True)
+            return bool(v)
         stats = e3.explore(scn, case['bound'], on, max_exec=6000)
     finally:
         shutil.rmtree(tmp, ignore_errors=True)
